@@ -463,7 +463,11 @@ func project(rv reflect.Value) tvNode {
 		if rv.Kind() == reflect.Uint8 {
 			g = "uint8"
 		}
-		return tvNode{"g": g, "s": strconv.FormatUint(rv.Uint(), 10), "name": namedScalar(t)}
+		n := tvNode{"g": g, "s": strconv.FormatUint(rv.Uint(), 10), "name": namedScalar(t)}
+		if rv.Uint() > 1<<63-1 {
+			n["big"] = true // upper half of the uint64 range (a fact about the number the specification cannot read off its text)
+		}
+		return n
 	case reflect.Float32:
 		return tvNode{"g": "float", "s": canon32(float32(rv.Float())), "s64": canonFloat(rv.Float()), "name": namedScalar(t)}
 	case reflect.Float64:
